@@ -29,6 +29,9 @@ func init() {
 		ruleK5(c, "C05.F15")
 		ruleF16(c, "C05.F16")
 		ruleF17(c, "C05.F17")
+		// a shrink transaction larger than the log is refused on every retry: the truncation never finishes
+		ruleShrinkReserve(c, "C05.F18")
+		ruleBmapFlag(c, "C05.F19")
 		ruleW1(c, "C05.F7")
 		ruleR3(c, "C05.R3")
 		ruleR6(c, "C05.R6")
@@ -196,6 +199,20 @@ func ruleF6(c *Ctx, id string) {
 				R.Check(reach[body], id, "shrinker.StartShrinker|spawns the shrinker", P.Pos(g.Pos()), "the goroutine runs ShrinkerSt.shrinker", "call graph", "spawned goroutine does not run the accounted body")
 			}
 		}
+	}
+	// a request to shrink is never dropped: every path of StartShrinker starts the goroutine, and the goroutine
+	// shrinks the inode it was started for on every path
+	isGo := func(in ssa.Instruction) bool { _, ok := in.(*ssa.Go); return ok }
+	R.Check(isGo(start.Blocks[0].Instrs[0]) || MustAfter(start, isGo, nil)(start.Blocks[0].Instrs[0]), id, "shrinker.StartShrinker|every request starts a shrinker", P.Pos(start.Pos()), "every path of StartShrinker reaches its go statement", "must-follow", "a request can be dropped: the inode keeps ShrinkSize beyond its size and nobody frees the blocks - a removed file's blocks stay marked in use and unreachable")
+	if doShrink := c.fn(id, "shrinker.(*ShrinkerSt).DoShrink"); doShrink != nil {
+		callsDo := func(in ssa.Instruction) bool {
+			if _, ok := in.(*ssa.Call); !ok || staticCallee(in) != doShrink {
+				return false
+			}
+			a := nonRecvArgs(in)
+			return len(a) == 1 && len(body.Params) == 2 && stripConv(a[0]) == ssa.Value(body.Params[1])
+		}
+		R.Check(callsDo(body.Blocks[0].Instrs[0]) || MustAfter(body, callsDo, nil)(body.Blocks[0].Instrs[0]), id, "shrinker.shrinker|shrinks its inode on every path", P.Pos(body.Pos()), "every path of the goroutine body calls DoShrink with the inode number it was given", "must-follow", "a started shrinker can end without shrinking its inode")
 	}
 	entry := body.Blocks[0].Instrs[0]
 	R.Check(MustAfter(body, dec, nil)(entry), id, "shrinker.shrinker|decrement on every path", P.Pos(body.Pos()), "nthread-1 on every non-panicking path", "must-follow", "a finished shrinker is still counted: Shutdown waits for ever")
